@@ -342,6 +342,48 @@ theorem scanRepaired_spec {C : Bid → Stat → Option AuditInfo} {idx : Index} 
       rw [← hp1] at this
       exact this
 
+theorem scanOne_rows_other (idx : Index) (f : FileEnt) {r : Row} (hr : r.bid ≠ f.bid) :
+    r ∈ (scanOne idx f).rows ↔ r ∈ idx.rows := by
+  unfold scanOne
+  cases findRow idx.rows f.bid with
+  | none =>
+    simp only [reread]
+    cases f.audit with
+    | none => rfl
+    | some a =>
+      simp only [List.mem_cons]
+      constructor
+      · rintro (h | h)
+        · exact absurd (by rw [h]) hr
+        · exact h
+      · exact fun h => Or.inr h
+  | some r' =>
+    simp only
+    split
+    · rfl
+    · simp only [reread]
+      cases f.audit with
+      | none => simp [mem_dropRow, hr]
+      | some a =>
+        simp only [List.mem_cons, mem_dropRow]
+        constructor
+        · rintro (h | h)
+          · exact absurd (by rw [h]) hr
+          · exact h.1
+        · exact fun h => Or.inr ⟨h, hr⟩
+
+theorem scanCurrent_rows_other : ∀ (files : List FileEnt) (idx : Index) {r : Row},
+    (∀ f ∈ files, r.bid ≠ f.bid) → (r ∈ (scanCurrent idx files).rows ↔ r ∈ idx.rows) := by
+  intro files
+  induction files with
+  | nil => intro idx r _; rfl
+  | cons f rest ih =>
+    intro idx r h
+    simp only [scanCurrent, List.foldl_cons]
+    have := ih (scanOne idx f) (r := r) (fun g hg => h g (by simp [hg]))
+    simp only [scanCurrent] at this
+    rw [this, scanOne_rows_other idx f (h f (by simp))]
+
 theorem sound_empty (C : Bid → Stat → Option AuditInfo) : Sound C Index.empty := by
   constructor <;> simp [Index.empty]
 
